@@ -169,6 +169,13 @@ class Grid2D(GridObject):
         u_ind = np.any(selected_centroids, axis=0)
         v_ind = np.any(selected_centroids, axis=1)
 
+        # Cover the full index range of the selection: on a rotated grid the
+        # selected cells may sit in non-adjacent columns or rows.
+        for ind in (u_ind, v_ind):
+            selected = np.flatnonzero(ind)
+            if len(selected) > 0:
+                ind[selected[0] : selected[-1] + 1] = True
+
         indices = np.kron(v_ind, u_ind).flatten()
 
         if not np.any(indices):
